@@ -352,6 +352,16 @@ theorem blockRow_injective (h h' : Header) (st st' : UInt8) (hw : h.WF) (hw' : h
     (e : serializeBlockRow h st = serializeBlockRow h' st') : h = h' ∧ st = st' :=
   Lemmas.blockRow_injective h h' st st' hw hw' e
 
+/-- block index key `<uint32 BE height><hash>`: 36 bytes, distinct (hash, height) pairs get distinct keys. -/
+theorem blockIndexKey_injective (h h' : List UInt8) (n n' : Nat) (hl : h.length = 32) (hl' : h'.length = 32)
+    (hn : n < 2 ^ 32) (hn' : n' < 2 ^ 32) (e : blockIndexKey h n = blockIndexKey h' n') : h = h' ∧ n = n' :=
+  Lemmas.blockIndexKey_injective h h' n n' hl hl' hn hn' e
+
+theorem blockIndexKey_length (h : List UInt8) (n : Nat) (hl : h.length = 32) : (blockIndexKey h n).length = 36 :=
+  Lemmas.blockIndexKey_length h n hl
+
+example : blockIndexKey (List.replicate 32 0xaa) 0x01020304 = [1, 2, 3, 4] ++ List.replicate 32 0xaa := by decide
+
 example : (⟨List.replicate 32 7, 800000, 900000000, 2 ^ 95⟩ : BestState).WF := by
   unfold BestState.WF; decide
 example : (⟨0x20000000, List.replicate 32 0, List.replicate 32 1, 1700000000, 0x1d00ffff, 42⟩ : Header).WF := by
